@@ -643,10 +643,19 @@ impl Gen {
                 let w = if cfg.weigher { self.rng.range((cap / 2).max(1), cap) as u32 } else { 1 };
                 let vid = self.vid();
                 self.script.push_back(Op::Insert { k: c, vid, w });
-                let step = self.rng.range(2, 3) as usize;
-                for (i, (_, key)) in by_recency.iter().enumerate() {
-                    if i % step == 0 && self.rng.chance(4, 5) {
+                if by_recency.len() >= 7 && self.rng.chance(1, 3) {
+                    // a run of 6-8 consecutive LRU residents: the victim scan gives up after more than five
+                    // consecutive nodes whose entries have left the map
+                    let n = (self.rng.range(6, 8) as usize).min(by_recency.len() - 1);
+                    for (_, key) in by_recency.iter().take(n) {
                         self.script.push_back(Op::Invalidate { k: *key });
+                    }
+                } else {
+                    let step = self.rng.range(2, 3) as usize;
+                    for (i, (_, key)) in by_recency.iter().enumerate() {
+                        if i % step == 0 && self.rng.chance(4, 5) {
+                            self.script.push_back(Op::Invalidate { k: *key });
+                        }
                     }
                 }
                 self.script.push_back(Op::Sync);
